@@ -16,6 +16,23 @@ use std::fmt::Write as _;
 use std::path::Path;
 
 pub const POOL: &[&str] = &["Aa", "Bb", "Cc", "Dd"];
+/// confusable package names: in every pool the first name is a proper prefix of the second (or differs from it only
+/// in case / is spelled like an item or a builtin of the language); "who owns this item" must be decided by the
+/// package segment of the path, never by a textual prefix of it
+pub const CONFUSABLE_POOLS: &[&[&str]] = &[
+    &["Net", "NetTypes", "Ne", "Fmt"],
+    &["Mai", "MainLib", "Ma", "MainLibX"],
+    &["A", "Aa", "Aaa", "Ab"],
+    &["Lib", "lib", "LIB", "Li"],
+    &["SAa", "SAaa", "Aa", "TAa"],
+    &["P1", "P10", "P_1", "P1_0"],
+    &["Ve", "Vec", "Ref", "Int32"],
+];
+
+/// the name pool of world `idx`: every other block of ten worlds uses a confusable pool
+pub fn pool_of(idx: usize) -> &'static [&'static str] {
+    if (idx / 10) % 2 == 0 { POOL } else { CONFUSABLE_POOLS[(idx / 20) % CONFUSABLE_POOLS.len()] }
+}
 pub const FORMS: &[&str] = &["fn", "ty", "lit", "ctor", "bound", "dyn", "unq", "nofn", "smeth", "sself", "tmeth", "flow"];
 /// forms whose path has three segments (`P::SP::mk`, `P::SP::get`, `P::TP::m`) or that only *use* a value of a type of
 /// the target without naming it (`flow`)
@@ -247,14 +264,96 @@ pub fn world_sexp(w: &World) -> S {
     )
 }
 
+/// a world built around one impl whose three roles — implementing package, owner of the trait, owner of the type —
+/// are an arrangement of the pool's related pair and a third package (all six arrangements), or of `Main`, a package
+/// whose name starts with `Main`, and a third one; the implementing package imports the other two
+fn gen_pair_world(pool: &'static [&'static str], rng: &mut Rng) -> World {
+    let main_pair = pool.iter().any(|n| n.starts_with("Main")) && rng.chance(1, 2);
+    let mut roles: Vec<String> = if main_pair {
+        // only the root can be the implementing package here (nobody may import Main)
+        let mut rest = vec![pool[1].to_string(), pool[0].to_string()];
+        if rng.chance(1, 2) {
+            rest.swap(0, 1);
+        }
+        vec!["Main".to_string(), rest[0].clone(), rest[1].clone()]
+    } else {
+        let mut r = vec![pool[0].to_string(), pool[1].to_string(), pool[2 + rng.below(pool.len() - 2)].to_string()];
+        for i in (1..r.len()).rev() {
+            let j = rng.below(i + 1);
+            r.swap(i, j);
+        }
+        r
+    };
+    // now and then the trait or the type is the implementing package's own (a legitimate impl)
+    match rng.below(6) {
+        0 => roles[1] = roles[0].clone(),
+        1 => roles[2] = roles[0].clone(),
+        _ => {}
+    }
+    let (q, t, h) = (roles[0].clone(), roles[1].clone(), roles[2].clone());
+    let mut pkgs: Vec<Pkg> = Vec::new();
+    let mut deps: Vec<String> = Vec::new();
+    for d in [&t, &h] {
+        if *d != q && !deps.contains(d) {
+            deps.push(d.clone());
+        }
+    }
+    if q == "Main" {
+        pkgs.push(Pkg { name: "Main".into(), state: State::Ok, imports: deps.clone(), uses: vec![], impls: vec![] });
+    } else {
+        let mut mi = vec![q.clone()];
+        for d in &deps {
+            if rng.chance(1, 2) {
+                mi.push(d.clone());
+            }
+        }
+        pkgs.push(Pkg { name: "Main".into(), state: State::Ok, imports: mi, uses: vec![], impls: vec![] });
+        pkgs.push(Pkg { name: q.clone(), state: State::Ok, imports: deps.clone(), uses: vec![], impls: vec![] });
+    }
+    for d in &deps {
+        pkgs.push(Pkg { name: d.clone(), state: State::Ok, imports: vec![], uses: vec![], impls: vec![] });
+    }
+    let qi = pkgs.iter().position(|p| p.name == q).unwrap();
+    let inherent = rng.chance(1, 4);
+    let (shape, head, arg) = match rng.below(8) {
+        0 | 1 | 2 => ("nom", h.clone(), "-".to_string()),
+        3 => ("gen", h.clone(), if rng.chance(1, 2) { "int32".to_string() } else { t.clone() }),
+        4 => ("vec", "-".to_string(), h.clone()),
+        5 => ("ref", "-".to_string(), h.clone()),
+        6 => ("dyn", h.clone(), "-".to_string()),
+        _ => ("prim", "-".to_string(), "-".to_string()),
+    };
+    let shape = if inherent && shape == "prim" { "nom" } else { shape };
+    let head = if shape == "nom" && head == "-" { h.clone() } else { head };
+    let which = if shape == "nom" && rng.chance(1, 2) { "R" } else { "S" }.to_string();
+    pkgs[qi].impls.push(Impl { file: 0, inherent, tr: if inherent { "-".to_string() } else { t.clone() }, shape: shape.to_string(), head, arg, which });
+    // a reference across the pair as well
+    if rng.chance(1, 2) {
+        let form = FORMS[rng.below(FORMS.len())].to_string();
+        let target = if rng.chance(1, 2) { t.clone() } else { h.clone() };
+        let via = if form == "sself" || form == "flow" { target.clone() } else { "-".to_string() };
+        pkgs[qi].uses.push(Use { file: 0, form, target, qual: false, via });
+    }
+    World { pkgs, shape: "pair" }
+}
+
 pub fn gen_world(idx: usize, rng: &mut Rng) -> World {
     let kind = idx % 10;
     // chains need depth >= 2: at least two packages below Main
     let np = if kind == 1 || kind == 2 { 2 + rng.below(3) } else { 1 + rng.below(4) };
-    let mut names: Vec<&str> = POOL.to_vec();
-    for i in (1..names.len()).rev() {
-        let j = rng.below(i + 1);
-        names.swap(i, j);
+    let pool = pool_of(idx);
+    if kind == 3 {
+        return gen_pair_world(pool, rng);
+    }
+    let mut names: Vec<&str> = pool.to_vec();
+    // keep the related pair (the first two names) together in small worlds of a confusable pool
+    if pool == POOL || np < 2 || rng.chance(1, 3) {
+        for i in (1..names.len()).rev() {
+            let j = rng.below(i + 1);
+            names.swap(i, j);
+        }
+    } else if rng.chance(1, 2) {
+        names.swap(0, 1);
     }
     let names: Vec<String> = names[..np].iter().map(|s| s.to_string()).collect();
     let mut pkgs: Vec<Pkg> = Vec::new();
